@@ -101,6 +101,14 @@ func NondetStringN(name string, n int, alphabet string) string { return NondetSt
 
 func Param(name string) int { return rf.Params[name] }
 
+func JSONValue(doc []byte) interface{} {
+	var v interface{}
+	if err := json.Unmarshal(doc, &v); err != nil {
+		panic("verifrt: JSONValue: " + err.Error())
+	}
+	return v
+}
+
 func NondetBytesLen(name string, maxLen int) []byte { return make([]byte, int(num(name))) }
 
 func NondetFloat32(name string) float32 { return math.Float32frombits(uint32(num(name))) }
